@@ -7,6 +7,7 @@ ops (hex bytes, `-` = nil/empty):
   newbase                 -> ok    fresh empty base database, no LocalDB
   base <k> <v>            -> ok    write into the base database (only before `new`)
   new                     -> ok    NewLocalDB(base, false)
+  newro                   -> ok    NewLocalDB(base, true): read-only mode, `set` answers `panic`
   begin | commit | rollback -> ok
   set <k> <v>             -> ok
   get <k>                 -> = <v> | notfound
@@ -22,6 +23,7 @@ they read the committed base database, whatever the LocalDB has buffered
 structure St where
   base : Map := []
   l : Option LocalDB := none
+  ro : Option RoLocalDB := none
 
 def showItems : Option (List Bytes) → String
   | none => "fuel"
@@ -35,14 +37,54 @@ def withL (s : St) (f : LocalDB → LocalDB × String) : St × String :=
     let (l', o) := f l
     ({ s with l := some l' }, o)
 
+def showOut : Out → String
+  | .ok => "ok"
+  | .val (some v) => "= " ++ toHexOrDash v
+  | .val none => "notfound"
+  | .items xs => showItems xs
+  | .num (some n) => toString n
+  | .num none => "fuel"
+  | .panic => "panic"
+
+def roStep (s : St) (ro : RoLocalDB) (op : Op) : St × String :=
+  let r := ro.step op
+  ({ s with ro := some r.1 }, showOut r.2)
+
+def parseOp (ws : List String) : Option Op :=
+  match ws with
+  | ["begin"] => some .begin
+  | ["commit"] => some .commit
+  | ["rollback"] => some .rollback
+  | ["set", k, v] => do
+    let k ← fromHex k
+    let v ← fromHex v
+    pure (.set k v)
+  | ["get", k] => do
+    let k ← fromHex k
+    pure (.get k)
+  | ["list", p, k, c, d] => do
+    let p ← fromHex p
+    let k ← fromHex k
+    let c ← c.toNat?
+    let d ← d.toNat?
+    pure (.list p k c d)
+  | ["count", p] => do
+    let p ← fromHex p
+    pure (.count p)
+  | _ => none
+
 def step (s : St) (line : String) : St × String :=
+  match s.ro, parseOp (words line) with
+  | some ro, some op => roStep s ro op
+  | _, _ =>
   match words line with
   | ["newbase"] => ({}, "ok")
   | ["base", k, v] =>
     match s.l, fromHex k, fromHex v with
     | none, some k, some v => ({ s with base := insert s.base k v }, "ok")
     | _, _, _ => (s, "bad-op")
-  | ["new"] => ({ s with l := some (LocalDB.new s.base) }, "ok")
+  | ["new"] => ({ s with l := some (LocalDB.new s.base), ro := none }, "ok")
+  | ["newro"] => ({ s with ro := some (RoLocalDB.new s.base), l := none }, "ok")
   | ["begin"] => withL s (fun l => (l.begin, "ok"))
   | ["commit"] => withL s (fun l => (l.commit, "ok"))
   | ["rollback"] => withL s (fun l => (l.rollback, "ok"))
